@@ -55,6 +55,7 @@ def handle (st : DState) (line : String) : DState × String :=
   | ["options", env, file, args] => (st, optionsLine env file args)
   | ["mirror", proto, src, dst, port, max, payload] => (st, mirrorLine proto src dst port max payload)
   | ["mirrorseq", proto, dst, port, max, mtu, mode, items] => (st, mirrorSeqLine proto dst port max mtu mode items)
+  | ["restart", _] => (st, "restarted")   -- Dump + GetCache: every lookup answers as before (C11.load_save_lookup)
   | _ => (st, "bad-op")
 
 partial def loop (h : IO.FS.Stream) (out : IO.FS.Stream) (st : DState) : IO Unit := do
